@@ -18,6 +18,7 @@ import (
 	"os/exec"
 	"strings"
 	"sync"
+	"syscall"
 	"time"
 
 	"mvdan.cc/sh/v3/expand"
@@ -36,6 +37,13 @@ type Req struct {
 	// stdout to at least that many bytes (the next stop() of the runner sees it).
 	CancelBytes int `json:"cancel_bytes"`
 	HardMs      int `json:"hard_ms"` // watchdog: no return after this long = hang (0 = TimeoutMs + 8 s)
+	// Pre: a program run FIRST on the same Runner (no Reset in between) with its own, never cancelled,
+	// context: the Runner is reused incrementally, as an interactive shell does.
+	Pre string `json:"pre"`
+	// ExecKillMs: nil = every external command is refused (status 127). Otherwise external commands are
+	// really started through interp.DefaultExecHandler(ExecKillMs ms) with PATH=/usr/bin:/bin. Only the
+	// fixed, harmless templates of cmd/c31 (sleep) use this.
+	ExecKillMs *int `json:"exec_kill_ms"`
 }
 
 // Resp is what the worker observed.
@@ -128,15 +136,36 @@ func RunOne(req Req, dir string, hard time.Duration) (resp Resp) {
 			c.Close()
 		}
 	}()
+	path := "PATH=/nonexistent"
+	handler := refuse
+	if req.ExecKillMs != nil {
+		path = "PATH=/usr/bin:/bin"
+		kt := time.Duration(*req.ExecKillMs) * time.Millisecond
+		handler = func(next interp.ExecHandlerFunc) interp.ExecHandlerFunc { return interp.DefaultExecHandler(kt) }
+	}
 	r, err := interp.New(
-		interp.Env(expand.ListEnviron("PATH=/nonexistent", "HOME="+dir, "TMPDIR="+dir)),
+		interp.Env(expand.ListEnviron(path, "HOME="+dir, "TMPDIR="+dir)),
 		interp.Dir(dir),
 		interp.StdIO(stdin, out, io.Discard),
-		interp.ExecHandlers(refuse),
+		interp.ExecHandlers(handler),
 	)
 	if err != nil {
 		resp.Err = "new: " + err.Error()
 		return
+	}
+	if req.Pre != "" {
+		pre, err := syntax.NewParser(syntax.Variant(syntax.LangBash)).Parse(strings.NewReader(req.Pre), "")
+		if err != nil {
+			resp.ParseErr = "pre: " + err.Error()
+			return
+		}
+		ctx0, cancel0 := context.WithCancel(context.Background()) // stays alive during the second Run
+		defer cancel0()
+		r.Run(ctx0, pre)
+		out.mu.Lock()
+		out.buf.Reset()
+		out.total = 0
+		out.mu.Unlock()
 	}
 	to := req.TimeoutMs
 	if to <= 0 {
@@ -261,7 +290,8 @@ func WorkerMain() {
 			w.Flush()
 			if resp.Hang {
 				os.RemoveAll(dir)
-				os.Exit(3) // goroutines of the hung Run cannot be stopped
+				syscall.Kill(0, syscall.SIGKILL) // the whole process group: this worker and any external child
+				os.Exit(3)                       // goroutines of the hung Run cannot be stopped
 			}
 			os.RemoveAll(sub)
 		}
@@ -290,6 +320,7 @@ func startWorker() (*worker, error) {
 	cmd := exec.Command(self, "worker")
 	cmd.Stderr = io.Discard
 	cmd.Env = []string{"PATH=/nonexistent", "TMPDIR=" + os.TempDir(), "GOMAXPROCS=4"}
+	cmd.SysProcAttr = &syscall.SysProcAttr{Setpgid: true} // so that kill() also reaps external children
 	in, err := cmd.StdinPipe()
 	if err != nil {
 		return nil, err
@@ -306,6 +337,7 @@ func startWorker() (*worker, error) {
 
 func (w *worker) kill() {
 	w.in.Close()
+	syscall.Kill(-w.cmd.Process.Pid, syscall.SIGKILL)
 	w.cmd.Process.Kill()
 	w.cmd.Wait()
 }
